@@ -483,8 +483,8 @@ theorem mergeS_val {r : Nat} {c : LinComb} {t f o : SVal} {n n' : Nat} {s s' : S
     rcases hb with hb | hb
     · exact hb
     · rw [hv]; exact hb
-  · obtain ⟨_, _, hk, vr⟩ := iteScalar_rep t.toVal_isS f.toVal_isS hv
-    refine ⟨?_, fun _ => SVal.bok_of_not_lcb (fun l hl' => hk l (by rw [← SVal.ofVal_toVal ho]; exact hl'))⟩
+  · obtain ⟨_, _, hk, vr, _⟩ := iteScalar_rep t.toVal_isS f.toVal_isS hv
+    refine ⟨?_, fun _ => SVal.bok_of_lcb_bool (fun l hl' => hk l (by rw [← SVal.ofVal_toVal ho]; exact hl'))⟩
     rw [SVal.ofVal_den ho, ← hr, vr, SVal.den_eq_rep, SVal.den_eq_rep]
     rcases hc with h0 | h1
     · simp [h0]
